@@ -239,6 +239,18 @@ pub fn geom_case(idx: usize, c: &GeomCase, tier: &str, seed: u64) -> Value {
             experiments.push(f);
         }
     }
+    // the valid rendering with stray pixels appended / pixels missing / a row more or less
+    for delta in [1i64, (w as i64) - 1, w as i64, -1, -(w as i64), 2 * w as i64, -((w as i64) - 1)] {
+        let mut p = px.clone();
+        if delta >= 0 {
+            for i in 0..delta as usize {
+                p.push(i % 2 == 0);
+            }
+        } else {
+            p.truncate((p.len() as i64 + delta).max(0) as usize);
+        }
+        events.push(json!({"ev": "Resize", "delta": delta, "parse": parse_json(&p, w, &cw), "decode": decode_json(&p, w)}));
+    }
     for f in experiments {
         let mut p = px.clone();
         for (r, cc) in &f {
